@@ -29,18 +29,20 @@ URLS = [
     "https://ofx.beta-cu.test/ofx%20srv/a",
     "https://ofx.gamma-invest.test:8443/o?x=1&y=%41",
     "http://ofx.delta.test/plain",
+    "https://ofx.epsilon.test/a;b=c/ofx:srv?k=v:1;w=2",
 ]
 SVC = [
     None,                                    # same as profile URL
     "https://svc.alpha-bank.test/stmt",
     "https://svc.beta-cu.test:8443/s%2Fx",
     None,
+    "https://svc.epsilon.test/s;t=u",
 ]
 POOL = {
     "url": URLS,
     "ofxhome": ["424", "900", "77"],
     "version": [102, 103, 151, 160, 200, 201, 202, 203, 210, 211, 220],
-    "org": ["ORGA", "Org B", "o-c"],
+    "org": ["ORGA", "Org B", "o-c", "A=B:C"],
     "fid": ["1001", "7", "F-9"],
     "appid": ["QWIN", "QBKS", "Money"],
     "appver": ["2700", "1900", "2400"],
@@ -48,7 +50,7 @@ POOL = {
     "bankid": ["111000614", "121000248", "9"],
     "brokerid": ["broker.test", "b2.example.com"],
     "useragent": ["UA/1.0", "Mozilla 5 (x; y)", "InetClntApp/3.0"],
-    "user": ["alice", "bob_2", "carol"],
+    "user": ["alice", "bob_2", "carol", "d smith", "x=y", "a:b;c", "#hash"],
     "clientuid": ["11111111-2222-4333-8444-555555555555", "AAAAAAAA-BBBB-4CCC-8DDD-EEEEEEEEEEEE"],
 }
 BOOLS = ["pretty", "unclosedelements", "nonewfileuid", "skipprofile"]
@@ -156,7 +158,7 @@ class OfxgetWorld:
         if opt in BOOLS:
             return bool(ch.pick(label + ".bool", 2))
         if opt in LISTS:
-            n = 1 + ch.geometric(label + ".len", 1.6, 11)           # 1..12 accounts, mostly few
+            n = 1 + ch.geometric(label + ".len", 1.8, 29)           # 1..30 accounts, mostly few
             out = []
             for _ in range(n):
                 if out and ch.flag(label + ".dup", 0.08):
@@ -178,7 +180,7 @@ class OfxgetWorld:
         # institutions behind every URL in the pool
         for i, url in enumerate(URLS):
             svc = SVC[i] if ch.pick("fi.svc", 2) == 0 else None
-            fi = peers.SimFI(sim, self.net, "ABGD"[i], url, svc or url, cookies=bool(ch.pick("fi.cookies", 2)),
+            fi = peers.SimFI(sim, self.net, "ABGDE"[i], url, svc or url, cookies=bool(ch.pick("fi.cookies", 2)),
                              form=["v1u", "v1c"][ch.pick("fi.form", 2)])
             fi.index = i
             fi.msgsets = ("BANK", "CC", "INV")
@@ -716,7 +718,7 @@ def draw_accounts(world):
     spec = []
     bankid = POOL["bankid"][ch.pick("acct.bankid", 3)]
     brokerid = POOL["brokerid"][ch.pick("acct.brokerid", 2)]
-    n = ch.geometric("acct.n", 3, 14)
+    n = ch.geometric("acct.n", 3, 30)
     for i in range(n):
         kind = ["bank", "cc", "inv", "bp"][ch.weighted("acct.kind", [4, 4, 4, 1])]
         status = ["ACTIVE", "PEND", "AVAIL"][ch.weighted("acct.status", [3, 1, 1])]
